@@ -10,6 +10,7 @@ RULE = ("seeded histories of update_adaptive_combi requests (55% active index wi
         "lmin=0..3, lmax-lmin=0..4; plus closed-form vs fresh-adaptive comparison for all d<=5, lmax-lmin<=5; plus "
         "exhaustive enumeration of all request sequences of small spaces. distinct = distinct final (old,active) "
         "pair; non-trivial = at least one successful refinement (index set changed)")
+RULE += (" Histories contain re-initialisations of the SAME CombiScheme object (same or other levels) after refinements; the result must be the standard truncated scheme of those levels.")
 REQUIRED = ["index_set_invariant", "coefficient_oracle", "nonrefinable_no_change", "closed_form_equals_fresh"]
 MIN_NONTRIVIAL = {"quick": 200, "thorough": 2000}
 CHUNK = {"quick": 150, "thorough": 1500}
@@ -80,6 +81,19 @@ def run_history(case, res):
     trace = []
     refined = 0
     for step in range(length):
+        if refined and rng.random() < 0.06:
+            # the same object is initialised again (same or other levels): the result must be the FRESH scheme of those levels
+            if rng.random() < 0.5:
+                lmin = rng.choice([0, 1, 1, 2, 3])
+                lmax = lmin + rng.choice([0, 1, 1, 2, 3])
+            cs.init_adaptive_combi_scheme(lmax, lmin)
+            model = rm.SchemeModel(d, lmin, lmax)
+            res.check("reinit_equals_standard", set(cs.get_index_set()) == rm.standard_index_set(d, lmin, lmax)
+                      and set(cs.active_index_set) == rm.standard_active_set(d, lmin, lmax), "reinitialised_not_standard",
+                      "index sets after a second init_adaptive_combi_scheme(%d, %d) on a used object differ from the standard truncated scheme" % (lmax, lmin),
+                      {"d": d, "lmin": lmin, "lmax": lmax, "old": sorted(cs.old_index_set), "active": sorted(cs.active_index_set), "trace": trace[-6:]})
+            judge(res, cs, d, lmin, "re-init at step %d" % step)
+            trace.append(["reinit", [lmax, lmin], None])
         r = rng.random()
         active = sorted(cs.active_index_set)
         old = sorted(cs.old_index_set)
